@@ -660,6 +660,116 @@ pub fn run(id: &str) {
             let priced = after.map(|p| p.0 > 0 && p.1 > 0).unwrap_or(false);
             verdict(id, dep_ok && wd_ok && (r.is_err() || !priced), &format!("deposit={} opened={:?} kept-at-activation={:?} withdraw-all-after-activation={} seal-panicked={} erg/sym pool after that seal={:?}", dep_ok, opened, kept, wd_ok, r.is_err(), after));
         }
+        // the first block of a chain: a coin whose covenant reads the (stand-in) previous header is made and spent; one at a
+        // time and as one batch must give the same verdict
+        "F25" => {
+            let free = Covenant::always_true();
+            let mk = |c: &Covenant, v: u128| CoinData { covhash: c.hash(), value: CoinValue(v), denom: Denom::Mel, additional_data: vec![].into() };
+            let mut differing = vec![];
+            for field in [4u8, 5, 6, 9] {
+                for want_zero in [false, true] {
+                    let mut ops = vec![OpCode::PushI(U256::from(field)), OpCode::LoadImm(10), OpCode::VRef];
+                    if field != 6 {
+                        ops.push(OpCode::BtoI);
+                    }
+                    if want_zero {
+                        ops.push(OpCode::PushI(U256::from(0u8)));
+                        ops.push(OpCode::Eql);
+                    }
+                    let reader = Covenant::from_ops(&ops);
+                    let db = novasmt::Database::new(Cas::default());
+                    let genesis = melstf::GenesisConfig { network: NetID::Custom02, init_coindata: mk(&free, 1_000_000), stakes: Default::default(), init_fee_pool: CoinValue(0), init_fee_multiplier: 0 }.realize(&db);
+                    let a = Transaction { kind: TxKind::Normal, inputs: vec![CoinID::zero_zero()], outputs: vec![mk(&reader, 1_000_000)], fee: CoinValue(0), covenants: vec![free.to_bytes()], data: vec![].into(), sigs: vec![] };
+                    let b = Transaction { kind: TxKind::Normal, inputs: vec![a.output_coinid(0)], outputs: vec![mk(&free, 1_000_000)], fee: CoinValue(0), covenants: vec![reader.to_bytes()], data: vec![].into(), sigs: vec![] };
+                    let mut one = genesis.clone();
+                    let seq = silent(|| one.apply_tx(&a).and_then(|_| one.apply_tx(&b)).is_ok()).unwrap_or(false);
+                    let mut all = genesis.clone();
+                    let batch = silent(|| all.apply_tx_batch(&[a.clone(), b.clone()]).is_ok()).unwrap_or(false);
+                    if seq != batch {
+                        differing.push((field, want_zero, seq, batch));
+                    }
+                }
+            }
+            verdict(id, !differing.is_empty(), &format!("(header field, wants zero, accepted one at a time, accepted as a batch) where the two differ={:?}", differing));
+        }
+        // melpow 0.1.2 (dependency): `Proof::verify` recomputes the Merkle-like commitment but compares the root label
+        // with itself, and the 200 challenged leaves are derived from the puzzle alone — so a "proof" of any difficulty
+        // is written down with about 200 x difficulty hash evaluations and no sequential work, and melstf mints against it
+        "K-melpow-forgeable" => {
+            use melpow::HashFunction;
+            #[derive(Clone, Copy, PartialEq, Eq, PartialOrd, Ord)]
+            struct Node {
+                bv: u64,
+                len: usize,
+            }
+            impl Node {
+                fn take(self, n: usize) -> Node {
+                    Node { bv: self.bv & ((1u64 << n) - 1), len: n }
+                }
+                fn append(self, b: u64) -> Node {
+                    Node { bv: self.bv | (b << self.len), len: self.len + 1 }
+                }
+                fn bit(self, n: usize) -> u64 {
+                    (self.bv >> n) & 1
+                }
+                fn bytes(self) -> [u8; 8] {
+                    (((self.len as u64) << 56) | self.bv).to_be_bytes()
+                }
+            }
+            let forge = |puzzle: &[u8], d: usize| -> Vec<u8> {
+                let h = melstf::LegacyMelPowHash;
+                let chi = tmelcrypt::hash_keyed(b"chi", puzzle);
+                let gammas: Vec<Node> = (0..200)
+                    .map(|i| {
+                        let seed = tmelcrypt::hash_keyed(format!("gamma-{}", i).as_bytes(), puzzle);
+                        let g = u64::from_le_bytes(seed[0..8].try_into().unwrap());
+                        let shift = 64 - d;
+                        Node { bv: ((g >> shift) << shift).reverse_bits(), len: d }
+                    })
+                    .collect();
+                let mut labels: BTreeMap<Node, Vec<u8>> = BTreeMap::new();
+                labels.insert(Node { bv: 0, len: 0 }, vec![7u8; 32]);
+                for g in &gammas {
+                    for i in 0..d {
+                        labels.entry(g.take(i).append(1 - g.bit(i))).or_insert_with(|| vec![7u8; 32]);
+                    }
+                }
+                for last in [0u64, 1] {
+                    for g in gammas.iter().filter(|g| g.bit(d - 1) == last) {
+                        let mut acc: Vec<u8> = vec![];
+                        let mut add = |b: &[u8]| {
+                            acc.extend_from_slice(&(b.len() as u64).to_be_bytes());
+                            acc.extend_from_slice(b);
+                        };
+                        add(&g.bytes());
+                        for i in 0..d {
+                            if g.bit(i) == 1 {
+                                add(&labels[&g.take(i).append(0)]);
+                            }
+                        }
+                        labels.insert(*g, h.hash(&acc, &chi).to_vec());
+                    }
+                }
+                labels.iter().flat_map(|(n, l)| n.bytes().into_iter().chain(l.iter().copied())).collect()
+            };
+            let free = Covenant::always_true();
+            let mk = |denom: Denom, v: u128| CoinData { covhash: free.hash(), value: CoinValue(v), denom, additional_data: vec![].into() };
+            let db = novasmt::Database::new(Cas::default());
+            let sealed0 = melstf::GenesisConfig { network: NetID::Custom02, init_coindata: mk(Denom::Mel, 1_000_000), stakes: Default::default(), init_fee_pool: CoinValue(0), init_fee_multiplier: 0 }.realize(&db).seal(None);
+            let mut state1 = sealed0.next_unsealed();
+            let seed = CoinID::zero_zero();
+            let puzzle = tmelcrypt::hash_keyed(sealed0.header().hash(), &stdcode::serialize(&seed).unwrap());
+            let d = 40usize;
+            let t0 = std::time::Instant::now();
+            let bytes = forge(&puzzle, d);
+            let forged_ms = t0.elapsed().as_millis();
+            let verifies = silent(|| melpow::Proof::from_bytes(&bytes).map(|p| p.verify(&puzzle, d, melstf::LegacyMelPowHash)).unwrap_or(false)).unwrap_or(false);
+            let minted = 419_766_329_354_321u128;
+            let mint = Transaction { kind: TxKind::DoscMint, inputs: vec![seed], outputs: vec![mk(Denom::Mel, 1_000_000), mk(Denom::Erg, minted)], fee: CoinValue(0), covenants: vec![free.to_bytes()], data: stdcode::serialize(&(d as u32, bytes)).unwrap().into(), sigs: vec![] };
+            let accepted = silent(|| state1.apply_tx(&mint).is_ok()).unwrap_or(false);
+            let speed = state1.clone().seal(None).header().dosc_speed;
+            verdict(id, verifies && accepted, &format!("difficulty-{} proof written down in {} ms without sequential work: verify={} mint of {} microERG accepted={} dosc_speed afterwards={}", d, forged_ms, verifies, minted, accepted, speed));
+        }
         // two covenants of saturated weight: the plain sum overflows
         "F19" => {
             use OpCode::*;
